@@ -75,7 +75,7 @@ def path(J, ctx, kind, m, n, cfg, prefilter=False):
         it, adapter, read, c, mo = C01.setup_path(ctx, kind, m, n, cfg, adapter_alphabet="ACGT", read_alphabet="ACGTNacgt!")
     else:
         it, adapter, read, c, mo = C01.setup_path(ctx, kind, m, n, cfg)
-    mk = C01.make_cex(kind, cfg, adapter, read, mo)
+    mk = C01.make_cex(kind, cfg, adapter, read, mo, c.get("min_overlap_given"))
     if prefilter:
         _mk = mk
         def mk(model):  # noqa
